@@ -450,6 +450,40 @@ fn c20_map_scenarios(rep: &mut Report, seed: u64, reps: usize) {
     }
 }
 
+/// Directed scripts for C02: runs whose failure (if any) would come from the END of the run — the farewell compaction of
+/// global streams and the scope-end compaction of `new` streams read the trace positions the values carry — so that a value
+/// entering a stream with a wrong position shows as "failed code, but the returned data is not the previous data".
+/// Each script runs under a few random schedules; every step is checked with the C02 oracle.
+fn c02_directed(rep: &mut Report, seed: u64) {
+    let p = peers_for(3);
+    let (a, b, c) = (&p[0].id, &p[1].id, &p[2].id);
+    let scripts: Vec<String> = vec![
+        format!(r#"(seq (call "{a}" ("svc" "arr_1") [] items) (fold items item (seq (ap item $s) (next item))))"#),
+        format!(r#"(seq (call "{a}" ("svc" "arr_1") [] items) (seq (fold items item (seq (ap item $s) (next item))) (seq (canon "{a}" $s #c) (call "{b}" ("svc" "echo_2") [#c]))))"#),
+        format!(r#"(seq (call "{a}" ("svc" "obj_1") [] o) (seq (fold o.$.arr item (seq (ap item $s) (seq (ap item.$.[0] $t) (next item)))) (call "{b}" ("svc" "str_2") [] $s)))"#),
+        format!(r#"(seq (call "{b}" ("svc" "arr_1") [] items) (new $s (seq (fold items item (seq (ap item $s) (next item))) (seq (canon "{b}" $s #c) (call "{c}" ("svc" "echo_2") [#c])))))"#),
+        format!(r#"(seq (call "{a}" ("svc" "arr_1") [] $s) (seq (call "{a}" ("svc" "arr_2") [] items) (seq (fold items i (seq (call "{b}" ("svc" "echo_3") [i] $s) (next i))) (fold $s j (seq (ap j $t) (next j))))))"#),
+        format!(r#"(seq (call "{a}" ("svc" "arr_1") [] items) (par (fold items i (par (ap i $s) (next i))) (seq (ap "x" $s) (call "{c}" ("svc" "str_2") [] y))))"#),
+    ];
+    for (si, air) in scripts.iter().enumerate() {
+        if air_parser::parse(air).is_err() { rep.oracle_fail(json!({"why": "harness: directed C02 script does not parse", "input": {"air": air}})); continue; }
+        for round in 0..3u64 {
+            let mut net = Net::new(air, &p, &format!("c02-directed-{si}-{round}"));
+            let mut r2 = Rng::new(seed ^ (si as u64 * 6151 + round * 31337));
+            net.run_random(&mut r2, 60);
+            rep.stat("c02_directed_histories");
+            for st in &net.log {
+                rep.evaluations += 1;
+                rep.stat(&format!("c02_directed_code:{}", st.outcome.ret_code));
+                if let Some(why) = check_c02_step(&net, st) {
+                    rep.oracle_fail(json!({"why": format!("{why} [directed script {si}, step {} on peer {}]", st.step, net.peers[st.peer].peer.name), "input": step_json(&net, st), "scenario": "c02 directed"}));
+                    return;
+                }
+            }
+        }
+    }
+}
+
 // ---------------------------------------------------------------- drivers
 
 fn canon_case(h: &Hist) -> String { format!("{}|{}", h.air, h.net.log.iter().map(|s| format!("{}:{}:{}", s.peer, s.event, s.outcome.ret_code)).collect::<Vec<_>>().join(",")) }
@@ -478,6 +512,7 @@ pub fn run_property(prop: &str, ctx: &mut Ctx, rep: &mut Report) {
             }
         }
     }
+    if prop == "C02" { c02_directed(rep, ctx.seed); }
     if prop == "C20" { c20_canon_map_collision_probe(rep); c20_map_scenarios(rep, ctx.seed, if ctx.thorough { 24 } else { 8 }); }
     for hi in 0..pl.histories {
         let streams = pl.streams_every == 1 || hi % pl.streams_every == 1;
